@@ -247,22 +247,33 @@ theorem pend_fresh {s : Sys} (hs : Inv s) {k i : Nat} (h : (k, i) ∈ s.conn.pen
 
 /-! ### callHandler -/
 
-theorem hstep_call_known (dl : Bool) (h : Handler) (i p : Nat) (d : Dial) (hw : h.wedged = false)
-    (hc : h.clients.contains p = true) : hstep dl h (.call i p d) = (h, [.handed i p]) := by
+theorem hstep_call_known (dl db : Bool) (h : Handler) (i p : Nat) (d : Dial) (hw : h.wedged = false)
+    (hc : h.clients.contains p = true) : hstep dl db h (.call i p d) = (h, [.handed i p]) := by
   simp only [hstep, hw, hc]; rfl
 
-theorem hstep_call_new (dl : Bool) (h : Handler) (i p : Nat) (d : Dial) (hw : h.wedged = false)
+theorem hstep_call_new (dl db : Bool) (h : Handler) (i p : Nat) (d : Dial) (hw : h.wedged = false)
     (hc : h.clients.contains p = false) :
-    hstep dl h (.call i p d) =
+    hstep dl db h (.call i p d) =
       match d with
       | .ok => ({ h with clients := p :: h.clients }, [.handed i p])
       | .refused => (h, [.failed i])
       | .hsFail => (h, [.failed i])
-      | .silent => if dl then (h, [.failed i]) else ({ h with wedged := true }, []) := by
+      | .silent => if dl then (h, [.failed i]) else ({ h with wedged := true }, [])
+      | .blackhole => if db then (h, [.failed i]) else ({ h with wedged := true }, []) := by
   simp only [hstep, hw, hc]; rfl
 
-theorem hstep_remove (dl : Bool) (h : Handler) (p : Nat) (hw : h.wedged = false) :
-    (hstep dl h (.remove p)).1.wedged = false ∧ (hstep dl h (.remove p)).2 = [] := by
+theorem hstep_remove (dl db : Bool) (h : Handler) (p : Nat) (hw : h.wedged = false) :
+    (hstep dl db h (.remove p)).1.wedged = false ∧ (hstep dl db h (.remove p)).2 = [] := by
   simp [hstep, hw]
+
+/-- a wedged handler produces nothing any more, whatever is asked of it -/
+theorem hrun_wedged (dl db : Bool) (h : Handler) (evs : List HEv) (hw : h.wedged = true) :
+    hrun dl db h evs = (h, []) := by
+  induction evs with
+  | nil => rfl
+  | cons e es ih =>
+    have he : hstep dl db h e = (h, []) := by
+      cases e <;> simp [hstep, hw]
+    simp only [hrun, he, ih]; rfl
 
 end Dos.Dispatch
